@@ -195,7 +195,11 @@ class ListTransformer(converter.Base):
       for original_call_node, pop_var_name in pop_uses:
         replacements.extend(
             self._generate_pop_operation(original_call_node, pop_var_name))
-      replacements.append(node)
+      if isinstance(node, (list, tuple)):
+        # The statement itself was replaced by several statements.
+        replacements.extend(node)
+      else:
+        replacements.append(node)
       node = replacements
     self.state[_Statement].exit()
     return node, None
